@@ -431,7 +431,7 @@ def _ff_case(draw, max_w=4, max_ops=9):
             nc = 2 if _chance(draw, 5 if v3 else 30) else 1
             conds = []
             for _c in range(nc):
-                t = draw(st.sampled_from(["key"] * 10 + ["eq"] * 12 + ["key_index"] * 3 + ["bitmask", "sympy_other"]))
+                t = draw(st.sampled_from(["key"] * 5 + ["eq"] * 6 + ["bitmask"] + ["key_index"] * 2 + ["sympy_other"] + ["eq"] * 6 + ["key"] * 5))
                 c = {"t": t, "ki": draw(st.integers(0, 7))}
                 if t == "eq":
                     c["v"] = draw(st.sampled_from([0, 1, 1, 1, 3, 3, 3, 5, 7, 2, 2, 4, 6, 9]))
@@ -440,9 +440,10 @@ def _ff_case(draw, max_w=4, max_ops=9):
                 elif t == "sympy_other":
                     c["form"] = draw(st.sampled_from(["gt", "ne", "eq_rev", "xor", "bare"]))
                 elif t == "key_index":
-                    c["index"] = draw(st.sampled_from([0, -2, -1, -1]))
+                    c["index"] = draw(st.sampled_from([-1, 0, -1, -2, -1]))
                 conds.append(c)
             o["conds"] = conds
+            o["form"] = draw(st.sampled_from(["wcc", "wcc", "if"]))
         ops.append(o)
     if not _chance(draw, 4):
         # make sure most circuits measure early, so that later conditions have something to test
@@ -501,6 +502,7 @@ def plan(r):
                 if conds:
                     e["k"] = "cc"
                     e["conds"] = conds
+                    e["form"] = o.get("form", "wcc")
             out.append(e)
     return out, arity
 
@@ -557,7 +559,7 @@ def _build_ff(r):
                                                               equal_target=bool(cd.get("equal"))))
                     else:
                         conds.append(cirq.SympyCondition(_sympy_cond(cd)))
-                op = op.with_classical_controls(*conds)
+                op = cirq.If(conds, op) if e.get("form") == "if" else op.with_classical_controls(*conds)
         c.append(op, strategy=getattr(cirq.InsertStrategy, GC.INS[e.get("ins", 0) % 4]))
     return c, qs, steps, arity
 
@@ -571,7 +573,7 @@ def _cirq_ir(circuit, order):
     for op in circuit.all_operations():
         conds = []
         base = op
-        if isinstance(op, cirq.ClassicallyControlledOperation):
+        if op.classical_controls:  # ClassicallyControlledOperation and cirq.If alike (public Operation API)
             base = op.without_classical_controls()
             for cd in op.classical_controls:
                 if isinstance(cd, cirq.KeyCondition):
@@ -785,77 +787,7 @@ def _fmt(d):
 # ----------------------------------------------------------------------------------------- known features (rule 1)
 
 
-def _families(sub, r):
-    if sub == "gate":
-        return [r["g"][0]]
-    return [o["g"][0] for o in r.get("ops", []) if "g" in o]
-
-
-import re as _re
-
-_VALID_ID = _re.compile(r"[a-z][a-zA-Z0-9_]*\Z")
-
-
-def _cc_steps(sub, r):
-    if sub != "feedforward":
-        return []
-    return [e for e in plan(r)[0] if e["k"] == "cc"]
-
-
-def _sub_statements(e):
-    """number of statements cirq emits for the (uncontrolled) sub-operation of a cc step; None = no direct qasm."""
-    g = G.build_gate(e["g"])
-    k = G.arity(e["g"])
-    qs = cirq.LineQubit.range(max(k, 1))
-    txt = cirq.qasm(g.on(*qs[:k]), args=cirq.QasmArgs(qubit_id_map={q: f"q[{i}]" for i, q in enumerate(qs)}), default=None)
-    return None if txt is None else txt.count(";")
-
-
-def _bitrev(v, n):
-    return int(format(v, f"0{n}b")[::-1], 2)
-
-
-KNOWN_FEATURES = {
-    # F8: sympy ``key == v`` on a key of n >= 2 bits with v != bit-reversed v
-    "F8_multibit_eq_creg_endianness": lambda sub, r: any(
-        c["t"] == "eq" and c["bits"] >= 2 and c["v"] < 2 ** c["bits"] and _bitrev(c["v"], c["bits"]) != c["v"]
-        for e in _cc_steps(sub, r) for c in e["conds"]),
-    # C19A: classically controlled op whose sub-operation is emitted as several statements: only the first is guarded
-    "C19A_cc_multi_statement_body": lambda sub, r: any((_sub_statements(e) or 0) > 1 for e in _cc_steps(sub, r)),
-    # C19B: classically controlled global phase is emitted as a dangling ``if (..) `` that swallows the next statement
-    "C19B_cc_global_phase_dangling_if": lambda sub, r: any(_sub_statements(e) == 0 for e in _cc_steps(sub, r)),
-    # C19C: classically controlled op whose sub-operation has no direct mnemonic raises TypeError instead of decomposing
-    "C19C_cc_without_direct_qasm_typeerror": lambda sub, r: any(_sub_statements(e) is None for e in _cc_steps(sub, r)),
-    # C19E: SympyCondition.qasm hard-codes ``m_<key>`` although keys that are no valid identifiers are stored in ``m<i>``
-    "C19E_sympy_condition_sanitised_key": lambda sub, r: any(
-        c["t"] == "eq" and not _VALID_ID.match("m_" + c["key"]) for e in _cc_steps(sub, r) for c in e["conds"]),
-    # C19F: KeyCondition(key, index=i) selecting an earlier repetition of the key is exported as a test of the creg (= latest)
-    "C19F_keycondition_index_ignored": lambda sub, r: any(
-        c["t"] == "key_index" and c["times"] >= 2 and -c["times"] <= c.get("index", -1) < c["times"]
-        and c.get("index", -1) % c["times"] != c["times"] - 1 for e in _cc_steps(sub, r) for c in e["conds"]),
-    # C19G: GlobalPhaseGate.is_identity() is np.isclose(coefficient, 1) (rtol 1e-5): while decomposing a *controlled*
-    # gate the extracted phase exp(i pi shift exponent) is dropped when it is within 1e-5 of 1, although under a
-    # control it is a relative phase -> decomposition (hence export) off by up to 1e-5 regardless of precision
-    "C19G_controlled_small_phase_dropped": lambda sub, r: sub == "gate" and r.get("nctrl", 0) > 0 and _tiny_phase(r),
-}
-
-
-def _tiny_phase(r):
-    """True iff Cirq's own full decomposition of the controlled operation differs from cirq.unitary(op) by an amount in
-    the band the dropped phases produce (1e-7 .. 5e-5); computed without any QASM code."""
-    qs = cirq.LineQubit.range(r["n"])
-    op = _gate_op(r, qs)
-    u = cirq.unitary(op, None)
-    if u is None:
-        return False
-    want = L.embed(u, [qs.index(q) for q in op.qubits], [2] * r["n"])
-    ops = []
-    for sub in cirq.decompose(op):
-        if len(sub.qubits) > 2 or cirq.unitary(sub, None) is None:
-            return False
-        ops.append((cirq.unitary(sub), [qs.index(q) for q in sub.qubits]))
-    d = L.diff_up_to_phase(L.circuit_unitary(ops, [2] * r["n"]), want)
-    return 1e-7 < d < 5e-5
+KNOWN_FEATURES = {}  # every defect this check found has been repaired in /repo (see FIXED_GATE / FIXED_FF below)
 
 
 def uncovered():
@@ -869,11 +801,24 @@ def uncovered():
     ]
 
 
-# regression inputs of repaired defects (C19D: bool control values, fixed by c21db99)
-_EXAMPLES_GATE = [
-    {"g": ["UniformSuperposition", {"n": 2, "m": 3}], "w": [0, 1], "n": 2, "nctrl": 0, "cv": [], "ctrl_form": "op",
-     "order": [0, 1], "precision": 10, "version": "2.0", "header": 1, "entry": "to_qasm"},
-]
+# regression inputs of repaired defects (key (fix commit) -> recipe); always run first
+FIXED_GATE = {
+    "C19D (c21db99)": {"g": ["UniformSuperposition", {"n": 2, "m": 3}], "w": [0, 1], "n": 2, "nctrl": 0, "cv": [], "ctrl_form": "op", "order": [0, 1], "precision": 10, "version": "2.0", "header": 1, "entry": "to_qasm"},
+    "C19G (b79d878)": {"g": ["CZPow", {"e": 6.4e-06, "s": 0.25}], "w": [0, 1, 2], "n": 3, "nctrl": 1, "cv": [1], "ctrl_form": "controlled_by", "order": [0, 1, 2], "precision": 10, "version": "2.0", "header": 1, "entry": "to_qasm"},
+}
+FIXED_FF = {
+    "F8 (91d4985)": {"dims": [2, 2, 2], "names": [0, 1, 2], "qkind": "line", "ops": [{"k": "g", "g": ["XPow", {"e": 1.0, "s": 0.0}], "w": [1], "ins": 0}, {"k": "m", "key": 0, "w": [0, 1], "inv": [], "ins": 0, "conf": False}, {"k": "cc", "g": ["XPow", {"e": 1.0, "s": 0.0}], "w": [2], "ins": 0, "conds": [{"t": "eq", "ki": 0, "v": 1}]}, {"k": "m", "key": 1, "w": [2], "inv": [], "ins": 0, "conf": False}], "idle": False, "order": [0, 1, 2], "precision": 10, "version": "2.0", "header": 1, "entry": "to_qasm"},
+    "C19A (20b22e4)": {"dims": [2, 2], "names": [0, 1], "qkind": "line", "ops": [{"k": "m", "key": 0, "w": [0], "inv": [], "ins": 0, "conf": False}, {"k": "cc", "g": ["HPow", {"e": 0.5, "s": 0.0}], "w": [1], "ins": 0, "conds": [{"t": "key", "ki": 0}]}, {"k": "m", "key": 1, "w": [1], "inv": [], "ins": 0, "conf": False}], "idle": False, "order": [0, 1], "precision": 10, "version": "2.0", "header": 1, "entry": "to_qasm"},
+    "C19B (20b22e4)": {"dims": [2, 2], "names": [0, 1], "qkind": "line", "ops": [{"k": "m", "key": 0, "w": [0], "inv": [], "ins": 0, "conf": False}, {"k": "cc", "g": ["GlobalPhase", {"turns": 0.25}], "w": [], "ins": 0, "conds": [{"t": "key", "ki": 0}]}, {"k": "g", "g": ["XPow", {"e": 1.0, "s": 0.0}], "w": [1], "ins": 0}, {"k": "m", "key": 1, "w": [1], "inv": [], "ins": 0, "conf": False}], "idle": False, "order": [0, 1], "precision": 10, "version": "2.0", "header": 1, "entry": "to_qasm"},
+    "C19C (55bcca9)": {"dims": [2, 2], "names": [0, 1], "qkind": "line", "ops": [{"k": "m", "key": 0, "w": [0], "inv": [], "ins": 0, "conf": False}, {"k": "cc", "g": ["SwapPow", {"e": 0.5, "s": 0.0}], "w": [0, 1], "ins": 0, "conds": [{"t": "key", "ki": 0}]}], "idle": False, "order": [0, 1], "precision": 10, "version": "2.0", "header": 1, "entry": "to_qasm"},
+    "C19E (724280a)": {"dims": [2, 2], "names": [0, 1], "qkind": "line", "ops": [{"k": "m", "key": 4, "w": [0], "inv": [], "ins": 0, "conf": False}, {"k": "cc", "g": ["XPow", {"e": 1.0, "s": 0.0}], "w": [1], "ins": 0, "conds": [{"t": "eq", "ki": 0, "v": 1}]}], "idle": False, "order": [0, 1], "precision": 10, "version": "2.0", "header": 1, "entry": "to_qasm"},
+    "C19F (7cbea57)": {"dims": [2, 2], "names": [0, 1], "qkind": "line", "ops": [{"k": "g", "g": ["XPow", {"e": 1.0, "s": 0.0}], "w": [0], "ins": 0}, {"k": "m", "key": 0, "w": [0], "inv": [], "ins": 0, "conf": False}, {"k": "g", "g": ["XPow", {"e": 1.0, "s": 0.0}], "w": [0], "ins": 0}, {"k": "m", "key": 0, "w": [0], "inv": [], "ins": 0, "conf": False}, {"k": "cc", "g": ["XPow", {"e": 1.0, "s": 0.0}], "w": [1], "ins": 0, "conds": [{"t": "key_index", "ki": 0, "index": 0}]}, {"k": "m", "key": 1, "w": [1], "inv": [], "ins": 0, "conf": False}], "idle": False, "order": [0, 1], "precision": 10, "version": "2.0", "header": 1, "entry": "to_qasm"},
+    "F8 (91d4985) 3.0": {"dims": [2, 2, 2], "names": [0, 1, 2], "qkind": "line", "ops": [{"k": "g", "g": ["XPow", {"e": 1.0, "s": 0.0}], "w": [1], "ins": 0}, {"k": "m", "key": 0, "w": [0, 1], "inv": [], "ins": 0, "conf": False}, {"k": "cc", "g": ["XPow", {"e": 1.0, "s": 0.0}], "w": [2], "ins": 0, "conds": [{"t": "eq", "ki": 0, "v": 1}]}, {"k": "m", "key": 1, "w": [2], "inv": [], "ins": 0, "conf": False}], "idle": False, "order": [0, 1, 2], "precision": 10, "version": "3.0", "header": 1, "entry": "to_qasm"},
+    "C19A (20b22e4) 3.0": {"dims": [2, 2], "names": [0, 1], "qkind": "line", "ops": [{"k": "m", "key": 0, "w": [0], "inv": [], "ins": 0, "conf": False}, {"k": "cc", "g": ["HPow", {"e": 0.5, "s": 0.0}], "w": [1], "ins": 0, "conds": [{"t": "key", "ki": 0}]}, {"k": "m", "key": 1, "w": [1], "inv": [], "ins": 0, "conf": False}], "idle": False, "order": [0, 1], "precision": 10, "version": "3.0", "header": 1, "entry": "to_qasm"},
+    "C19C (55bcca9) 3.0": {"dims": [2, 2], "names": [0, 1], "qkind": "line", "ops": [{"k": "m", "key": 0, "w": [0], "inv": [], "ins": 0, "conf": False}, {"k": "cc", "g": ["SwapPow", {"e": 0.5, "s": 0.0}], "w": [0, 1], "ins": 0, "conds": [{"t": "key", "ki": 0}]}], "idle": False, "order": [0, 1], "precision": 10, "version": "3.0", "header": 1, "entry": "to_qasm"},
+}
+_EXAMPLES_GATE = list(FIXED_GATE.values())
+_EXAMPLES_FF = list(FIXED_FF.values())
 
 SUBCHECKS = [
     SubCheck("gate_special", None, oracle_gate, quick=0, thorough=0, shards_quick=4, shards_thorough=4,
@@ -884,5 +829,5 @@ SUBCHECKS = [
              essential={"needs_decomposition": 0.3, "version=3.0": 0.3, "version=2.0": 0.3}),
     SubCheck("feedforward", _ff_case(), oracle_ff, quick=2400, thorough=90000, shards_quick=6, shards_thorough=16,
              essential={"classical_control": 0.2, "inverted_multi_measurement": 0.08, "needs_decomposition": 0.2,
-                        "version=3.0": 0.25, "version=2.0": 0.25}),
+                        "version=3.0": 0.25, "version=2.0": 0.25}, examples=_EXAMPLES_FF),
 ]
